@@ -74,7 +74,7 @@ CLAIMED = {
         technique="symbolic execution (CrossHair+z3) with solver-chosen set-iteration schedules, havocked singleton state and solver-partitioned transformation histories vs fresh-process baselines; PYTHONHASHSEED replay"),
     "C18": dict(
         category="translation_validation", design_ref="§5 C18", engine="S+X",
-        text="Seeded random traces through the real GraphBuilder/OpBuilder (literals in every position, inputs given by keyword, _outputs, module scopes, If subgraphs capturing outer values) are shadowed by a symbolic replay that applies symonnx's rule per call with the property's own promotion rule; z3 decides [[built graph]] == replay for ALL inputs, and [[call]] == [[call_inline]] for script functions with attribute arguments, literal arguments and calls of other script functions (every callee must be defined in the model). Naming: (X) nn construction histories of <=3 (quick) / 5 (thorough) steps over 10 step kinds (create list / list with children / sequential, nest, attach to a root that is named at construction / at the end / never and may own a parameter called like the leaves', children called directly or inside an If branch built by a sub-builder, append/extend after naming, slice) are solver variables concretised by comparison forks; every Parameter must appear once as the initializer root.name + state_dict key and be the Parameter object, names unique, checker passes. Random module trees (depth<=4), value/node naming of traces and six traces with operators of non-default domains (validity only) are enumeration, labelled.",
+        text="Seeded random traces through the real GraphBuilder/OpBuilder (literals in every position, inputs given by keyword, _outputs, module scopes, If subgraphs capturing outer values) are shadowed by a symbolic replay that applies symonnx's rule per call with the property's own promotion rule; z3 decides [[built graph]] == replay for ALL inputs, and [[call]] == [[call_inline]] for script functions with attribute arguments, literal arguments and calls of other script functions (every callee must be defined in the model). Naming: (X) nn construction histories of <=4 (quick) / 5 (thorough) steps over 10 step kinds (create list / list with children / sequential, nest, attach to a root that is named at construction / at the end / never and may own a parameter called like the leaves', children called directly or inside an If branch built by a sub-builder, append/extend after naming, slice) are solver variables concretised by comparison forks; every Parameter must appear once as the initializer root.name + state_dict key and be the Parameter object, names unique, checker passes. Random module trees (depth<=4), value/node naming of traces and six traces with operators of non-default domains (validity only) are enumeration, labelled.",
         note=S_NOTE, technique="translation validation of traced graphs against a symbolic shadow replay; z3 equivalence; CrossHair-partitioned construction histories for module naming; structural enumeration for names"),
     "C20": dict(
         category="other", design_ref="§5 C20", engine="X",
